@@ -257,7 +257,7 @@ pub fn run(cfg: &Cfg, rep: &mut Report) {
   }
   rep.count("enumerated_cases_total", idx as u64);
   // random longer timelines
-  let total = cfg.n(60_000, 25_000_000);
+  let total = cfg.n(400_000, 25_000_000);
   let mut rng = Rng::new(cfg.seed ^ 0xC04);
   for i in 0..total {
     let mut r = rng.fork();
